@@ -163,6 +163,11 @@ func genKeyVal(r *Rng, profile string) V {
 	switch profile {
 	case "int":
 		return genInt(r, 0, 3)
+	case "wide": // many keys, a few matches each, some nulls
+		if r.Chance(1, 40) {
+			return vnull("i64")
+		}
+		return genInt(r, 0, 120)
 	case "intnull": // one kind of null only: no two distinct keys compare equal
 		if r.Chance(1, 4) {
 			return vnull("i64")
